@@ -183,20 +183,36 @@ def run_case(case, res):
             P, L = trees.gen_tree(rng, a[k], b[k], n_points=n)
             pts1d.append(P)
             levs.append(L)
-        cfg.update({"levels": levs, "n": [len(x) for x in pts1d]})
-        grid = (G.GlobalLagrangeGrid if kind == "global_lagrange" else G.GlobalBSplineGrid)(an, bn, boundary=True, p=p)
-        grid.set_grid(pts1d, levs)
+        # boundary variant: with boundary points / zero boundary values / modified (extrapolating) boundary basis
+        gb = rng.choice(["boundary", "boundary", "boundary", "zero", "modified"])
+        cfg.update({"levels": levs, "n": [len(x) for x in pts1d], "global_boundary": gb})
+        res.count("global_" + gb)
+        grid = (G.GlobalLagrangeGrid if kind == "global_lagrange" else G.GlobalBSplineGrid)(
+            an, bn, boundary=(gb == "boundary"), modified_basis=(gb == "modified"), p=p)
+        if gb != "boundary":
+            cfg["boundary"] = False
+        if kind == "global_lagrange" and gb == "modified":
+            try:
+                grid.set_grid(pts1d, levs)
+            except IndexError as ex:
+                res.check("global_lagrange_modified_usable", False, "C10_global_lagrange_modified_basis_unusable",
+                          "GlobalLagrangeGrid(boundary=False, modified_basis=True).set_grid raises %r while building the level-1 basis" % (ex,), cfg)
+                SINK["res"] = None
+                res.hash = digest([kind, p, nout, levs, "modified"])
+                return
+        else:
+            grid.set_grid(pts1d, levs)
         lvv = [max(l) for l in levs]
         grid.integrate(f, lvv, an, bn)
         cg = ComponentGridInfo(lvv, 1)
         pts = [tuple(float(x) for x in q) for q in grid.getPoints()]
         interp = lambda P: np.asarray(grid.interpolate(P, cg))
-        npts = [len(x) for x in pts1d]
+        npts = [len(x) - (0 if gb == "boundary" else 2) for x in pts1d]
         need = math.ceil(math.log2(p + 1))
         complete = p == 1 or all(trees.has_complete_level(levs[k], need) for k in range(d))
         lo_hi = [(a[k], b[k]) for k in range(d)]
         bases = [[grid.get_basis(k, i) for i in range(npts[k])] for k in range(d)]
-        coords = [list(map(float, pts1d[k])) for k in range(d)]
+        coords = [list(map(float, grid.get_coordinates_dim(k))) for k in range(d)]
         s, e, sn, en = a, b, an, bn
         interp_grid = lambda C: np.asarray(grid.interpolate_grid(C, cg))
         levels_for_hash = levs
@@ -229,12 +245,12 @@ def run_case(case, res):
     literal = [min(p, n - 1) for n in npts]
     if all(n >= 1 for n in npts) and pts:
         strict = literal if complete else [min(1, x) for x in literal]
-        if kind.startswith("local") and not cfg.get("boundary", True):
-            strict = None   # zero boundary conditions: polynomials are not in the space
+        if not cfg.get("boundary", True):
+            strict = None   # zero boundary conditions / modified boundary basis: polynomials are not in the space
         for degs, monitor, sig in ((strict, "polynomial_reproduction", "C10_polynomial_reproduction:" + kind),
                                    (literal if not complete else None, "polynomial_reproduction_literal",
                                     "C10_degree_min_p_n-1_not_reproduced_without_complete_level:" + kind)):
-            if degs is None or (kind.startswith("local") and not cfg.get("boundary", True)):
+            if degs is None or not cfg.get("boundary", True):
                 continue
             multi = list(dict.fromkeys([tuple(degs)] + [tuple(rng.randint(0, degs[k]) for k in range(d)) for _ in range(3)]))
             fp = poly_function(multi, s, e)
